@@ -196,9 +196,9 @@ theorem C03_set_iterations_by_lemma :
      (table.filter fun e => e.1.kind == .setIter && e.2.byReading).map (·.2)) =
     (8, [.setCycleCheck, .setIntHash, .setIntHash]) := by decide
 
-/-- How the 62 discharges split: by lemma / by reading (incl. trusted CPython facts) / attributed to the open finding. -/
+/-- How the 63 discharges split: by lemma / by reading (incl. trusted CPython facts) / attributed to the open finding. -/
 theorem C03_discharge_counts :
-    (table.length, (table.filter fun e => e.2.byReading).length, (table.filter fun e => e.2 == .readingLenF9).length) = (62, 28, 4) := by
+    (table.length, (table.filter fun e => e.2.byReading).length, (table.filter fun e => e.2 == .readingLenF9).length) = (63, 29, 4) := by
   decide
 
 /-- Exactly the sites attributed to the open finding F-9. -/
